@@ -104,6 +104,22 @@ class FnV:
 
 
 @dataclass(frozen=True)
+class SliceV:
+    """`&[u8]` view into a symbolic byte buffer: bytes are `buf(i)` (an uninterpreted function Int -> Int with range 0..255)"""
+    buf: str
+    off: object
+    len: object
+    ty: str = "[u8]"
+
+
+@dataclass(frozen=True)
+class ListV:
+    """a Vec / slice of concrete length whose elements are symbolic values"""
+    items: tuple
+    ty: str = ""
+
+
+@dataclass(frozen=True)
 class StrV:
     s: str
 
@@ -122,6 +138,8 @@ class RefV:
 
 
 UNIT = AggV((), "()")
+# constants of crates outside /repo that the generated code refers to (molecule 0.9: `pub const NUMBER_SIZE: usize = 4`)
+KNOWN_CONSTS = {"molecule::NUMBER_SIZE": (4, "usize")}
 
 ENUMS = {
     "Option": ["None", "Some"],
@@ -649,10 +667,21 @@ class Exec:
             elif k == "downcast":
                 val = self.downcast(val, p[1])
             elif k == "cindex":
-                val = self.field(val, p[1], "")
+                if isinstance(val, SliceV):
+                    val = self.byte_at(val, p[1])
+                elif isinstance(val, ListV):
+                    val = val.items[p[1]]
+                else:
+                    val = self.field(val, p[1], "")
             elif k == "index":
                 idx = fr.locals[p[1]]
-                if isinstance(idx, IntV) and isinstance(idx.t, int) and isinstance(val, AggV):
+                if isinstance(val, SliceV) and isinstance(idx, IntV):
+                    val = self.byte_at(val, idx.t)
+                elif isinstance(val, ListV) and isinstance(idx, IntV) and isinstance(idx.t, int):
+                    if idx.t >= len(val.items):
+                        raise Panic("index out of bounds")
+                    val = val.items[idx.t]
+                elif isinstance(idx, IntV) and isinstance(idx.t, int) and isinstance(val, AggV):
                     val = val.fields[idx.t]
                 elif isinstance(val, OpaqueV) and isinstance(idx, IntV):
                     # element of an opaque byte buffer: an unconstrained byte named after buffer and index
@@ -663,6 +692,12 @@ class Exec:
             else:
                 raise Unsupported(f"projection {p}")
         return val
+
+    def byte_at(self, sl, i):
+        t = T.app(sl.buf, T.INT, T.add(sl.off, i))
+        self.ctx.uf_decls[sl.buf] = (T.INT, (T.INT,))
+        self.ctx.add_side(T.and_(T.le(0, t), T.le(t, 255)))
+        return IntV(t, "u8")
 
     def field(self, val, idx, ty):
         if isinstance(val, AggV):
@@ -789,6 +824,9 @@ class Exec:
             return StrV(c)
         if c.startswith("b\""):
             return StrV(c)
+        if c in KNOWN_CONSTS:
+            v, ty = KNOWN_CONSTS[c]
+            return IntV(v, ty)
         m = re.fullmatch(r"ZeroSized: (.*)", c)
         if m:
             return AggV((), m.group(1))
@@ -849,9 +887,14 @@ class Exec:
                 return consts[key]
         # named const `core::extras::EpochNumberWithFraction::LENGTH_OFFSET` vs def
         # `extras::<impl at ...>::LENGTH_OFFSET` : match by last segment + type name in impl header
-        segs = split_top(c, "::")
-        last = segs[-1]
-        tyname = re.sub(r"<.*>", "", segs[-2]) if len(segs) > 1 else None
+        mq = re.match(r"^<(.+) as (.+)>::(\w+)$", c)
+        if mq:
+            last = mq.group(3)
+            tyname = type_head(mq.group(1))
+        else:
+            segs = [x for x in split_top(c, "::") if not x.startswith("<'") and not re.fullmatch(r"<[^>]*>", x)]
+            last = segs[-1]
+            tyname = re.sub(r"<.*>", "", segs[-2]).strip() if len(segs) > 1 else None
         cands = []
         for name, f in consts.items():
             if name.endswith("::" + last) or name == last:
@@ -862,13 +905,20 @@ class Exec:
                 h = self.prog._impl_header(f) or ""
                 if re.search(r"\b" + re.escape(tyname) + r"\b", h) or ("::" + tyname + "::") in ("::" + f.name):
                     c2.append(f)
-            if c2:
-                cands = c2
+            cands = c2
         if len(cands) == 1:
             return cands[0]
         if len(cands) > 1:
-            # identical definitions across crates are fine; pick the first
-            return cands[0]
+            # several definitions: acceptable only if they evaluate to the same value (same crate seen through two dumps)
+            vals = []
+            for f in cands:
+                try:
+                    vals.append(self.eval_const(f))
+                except PathEnd:
+                    vals.append(None)
+            if all(v == vals[0] and v is not None for v in vals):
+                return cands[0]
+            raise Unsupported(f"ambiguous constant `{c}` ({len(cands)} definitions with different values)")
         return None
 
     def eval_const(self, f):
@@ -945,6 +995,10 @@ class Exec:
             v = self.read_place(fr, parse_place(m.group(2)))
             if isinstance(v, AggV):
                 return IntV(len(v.fields), "usize")
+            if isinstance(v, SliceV):
+                return IntV(v.len, "usize")
+            if isinstance(v, ListV):
+                return IntV(len(v.items), "usize")
             raise Unsupported("Len of non-array")
         if r.startswith("(") and _find_matching(r, 0) == len(r) - 1:
             inner = r[1:-1].strip()
@@ -1213,6 +1267,19 @@ class Exec:
         if op == "PtrMetadata":
             if isinstance(a, IntV):
                 return a
+            if isinstance(a, SliceV):
+                return IntV(a.len, "usize")
+            if isinstance(a, RefV):
+                try:
+                    tg = self.project(a.frame, a.frame.locals[a.local], a.proj)
+                    if isinstance(tg, SliceV):
+                        return IntV(tg.len, "usize")
+                    if isinstance(tg, ListV):
+                        return IntV(len(tg.items), "usize")
+                except PathEnd:
+                    raise
+                except Exception:
+                    pass
             # length of a slice behind a reference: an unconstrained usize named after the referent
             tgt = a
             if isinstance(a, RefV):
